@@ -172,7 +172,7 @@ class CheckC13(core.Check):
             nm = names[int(e.label)]
             v = recognise(nm, case.info.get("cfg", "A"))
             if e.panic:
-                r.foreign_dev("C10", "parse panicked")
+                r.viol("C13|panic|%s" % v.kind, "parsing %r panicked instead of returning Ok or a pattern error: %s" % (nm, e.res[:120]))
                 continue
             if e.skipped:
                 continue
